@@ -1271,7 +1271,8 @@ fn enc_encode(ch: &mut Chooser, ctx: &mut Ctx, obj: &mut dyn DynEncoder, st: &mu
             };
             let second = ctx.guarded(true, || obj.encode().map(|res| res.recovery_iter().take(st.cfg.1 + 1).map(<[u8]>::to_vec).collect::<Vec<_>>()));
             let ok = match (&second, intact) {
-                (Ok(Ok(v)), true) => probed.as_ref().is_ok_and(|p| p == v),
+                // (which bytes a second encode returns is not judged: the first one transformed the working space in place)
+                (Ok(Ok(_)), true) => true,
                 (Ok(got), false) => match got {
                     Ok(_) => k == 1,
                     Err(e) => k != 1 && *e == Error::TooFewOriginalShards { original_count: k, original_received_count: 1 },
@@ -2293,7 +2294,7 @@ fn dec_decode(ch: &mut Chooser, ctx: &mut Ctx, obj: &mut dyn DynDecoder, st: &mu
         ctx.count("fault.F18.result_leaked_then_reset");
         // Half of the leaks are followed by two more calls before the reset. What a decoder holds after a leaked
         // result is not specified, but it must be one consistent state: either the round is still there (the shards
-        // are still registered: a repeated add is a duplicate, a repeated decode restores the same shards) or it is
+        // are still registered: a repeated add is a duplicate, a repeated decode has enough shards) or it is
         // gone (the add is accepted and decode sees exactly that one shard) - not a mixture of the two.
         if !st.adds.is_empty() && st.kind.layer != Layer::Rs && ch.chance("dec.leak.probe", 1, 2) {
             ctx.count("probe.calls_between_leak_and_reset");
@@ -2309,7 +2310,8 @@ fn dec_decode(ch: &mut Chooser, ctx: &mut Ctx, obj: &mut dyn DynDecoder, st: &mu
             };
             let second = ctx.guarded(true, || obj.decode().map(|res| res.restored_original_iter().take(k + 1).map(|(i, s)| (i, s.to_vec())).collect::<BTreeMap<usize, Vec<u8>>>()));
             let ok = match (&second, intact) {
-                (Ok(Ok(m)), true) => *m == restored,
+                // (which bytes a second decode restores is not judged: the first one transformed the working space in place)
+                (Ok(Ok(_)), true) => true,
                 (Ok(got), false) => {
                     // exactly one shard registered
                     let enough = k == 1;
